@@ -61,6 +61,17 @@ def oracle_c04(R):
 
 
 # ------------------------------------------------------------ helpers
+def retryable_families():
+    """The retryable streaming-error families, stated here independently of
+    the code under test (socket timeouts, connection errors, read timeouts,
+    incomplete reads, response streaming errors)."""
+    import socket
+    from botocore.exceptions import (
+        IncompleteReadError, ReadTimeoutError, ResponseStreamingError)
+    return (socket.timeout, ConnectionError, ReadTimeoutError,
+            IncompleteReadError, ResponseStreamingError)
+
+
 def is_cancel_exc(e):
     from s3transfer.exceptions import CancelledError
     return isinstance(e, CancelledError)
@@ -294,7 +305,7 @@ def oracle_c02(R):
 # ----------------------------------------------------------------- C03
 def retry_budget_ok(R, r):
     """per range: number of retryable stream faults delivered."""
-    from s3transfer.utils import S3_RETRYABLE_DOWNLOAD_ERRORS
+    S3_RETRYABLE_DOWNLOAD_ERRORS = retryable_families()
     per = {}
     for (step, site, exc, info) in delivered_for(R, r):
         if isinstance(exc, S3_RETRYABLE_DOWNLOAD_ERRORS) and site in (
@@ -307,7 +318,7 @@ def retry_budget_ok(R, r):
 
 def oracle_c03(R):
     from s3transfer.exceptions import RetriesExceededError
-    from s3transfer.utils import S3_RETRYABLE_DOWNLOAD_ERRORS
+    S3_RETRYABLE_DOWNLOAD_ERRORS = retryable_families()
     from .fakes3 import FakeClientError
     v = []
     attempts = cfg_of(R)['num_download_attempts']
@@ -626,6 +637,24 @@ def oracle_c07(R):
                               f'{type(e).__name__}',
                               f'transfer {i} not done at cancel(), no fault,'
                               f' ended with {e!r}'))
+            if not c['done_before'] and not D and o.get('ok') and \
+                    'end_step' in c and R.executors and \
+                    not reenter_summary(R.case):
+                # the cancel returned while no request/IO task of this
+                # transfer was executing: every task that starts later must
+                # skip its work, so the racing-final-step excuse is void
+                e_ = c['end_step']
+                busy = [it for k in (0, 2) if k < len(R.executors)
+                        for it in R.executors[k].items
+                        if it['transfer'] == i and it['start'] is not None
+                        and it['start'] <= e_
+                        and (it['end'] is None or it['end'] > e_)]
+                if not busy and R.announced.get(i, -1) > e_:
+                    v.append((f'c07:{kind}:future.cancel:cancel-ignored',
+                              f'transfer {i}: cancel() returned at step '
+                              f'{e_} with the transfer not done and none of '
+                              f'its request/IO tasks executing, yet it '
+                              f'finished successfully'))
             if c.get('before') is not None:
                 b = c['before']
                 same = (b[0] == 'ok' and o.get('ok')) or (
@@ -655,6 +684,12 @@ def oracle_c07(R):
 def oracle_c08(R):
     v = []
     evs = R.trace.events
+    if R.sched.deadlock and R.in_on_done_result is not None:
+        r = R.all_recs()[R.in_on_done_result]
+        v.append((f'c08:{kind_of(r)}:result-blocks-in-on_done',
+                  f'transfer {r["i"]}: result() called from on_done never '
+                  f'returned (deadlock {R.sched.deadlock})'))
+        return v
     for r in R.all_recs():
         if r['future'] is None or r['outcome'] is None:
             continue
